@@ -114,3 +114,77 @@ Example c03_effective_examples :
   effective_window [(0%N, 1000000 * 3600 * NS); (3%N, 1000000 * 3600 * NS)] L Aws (Some (1000 * 3600 * NS)) Basic 5 5 (1790000000 * NS)
     = Some (1790000000 * NS, (1790000000 + 86400) * NS).
 Proof. vm_compute. split; reflexivity. Qed.
+
+(* ---- the issuing CA certificate's own validity (a component of the server state) ----
+   [ca_nb, ca_na] = NotBefore / NotAfter of the CA certificate the path signs under (made at unseal
+   time from the wall clock of that moment: possibly in the future after a clock step, possibly about
+   to expire).  For EVERY CA validity the bounds of c03_effective_window hold: the certificate starts
+   now (never in the future, even under a CA that is not valid yet) and ends within the requested
+   duration / the path's limit counted from the moment of issuance.  (A certificate outliving its CA
+   is allowed by the statement.) *)
+Theorem c03_effective_window_every_ca : forall ca_nb ca_na cfg L p req c now0 now1 now2 nb na,
+  sane L -> 0 <= issued_at c now0 -> 0 <= now1 <= now2 -> now2 < two64 * NS / 4 ->
+  now1 < issued_at c now0 + two64 * NS / 4 ->
+  effective_window_ca (ca_nb, ca_na) cfg L p req c now0 now1 now2 = Some (nb, na) ->
+  nb <= now2 /\ now2 - NS < nb /\
+  na <= now2 + path_limit L p /\
+  (is_certgen p = true ->
+     na <= Z.max nb (issued_at c now0 + maxc L + (now2 - now1)) /\
+     match req with Some r => 0 < r <= maxc L /\ na <= now2 + r | None => True end) /\
+  (is_certgen p = false -> na = nb + path_limit L p).
+Proof. exact effective_window_ca_bound. Qed.
+Print Assumptions c03_effective_window_every_ca.
+
+(* the CA's dates are not an input of the window *)
+Theorem c03_window_independent_of_ca : forall ca ca' cfg L p req c now0 now1 now2,
+  effective_window_ca ca cfg L p req c now0 now1 now2 = effective_window_ca ca' cfg L p req c now0 now1 now2.
+Proof. exact effective_window_ca_independent. Qed.
+Print Assumptions c03_window_independent_of_ca.
+
+(* under a CA certificate that is not valid yet the issued certificate starts BEFORE its CA does, at
+   the moment of issuance *)
+Theorem c03_not_yet_valid_ca_starts_now : forall ca_nb ca_na cfg L p req c now0 now1 now2 nb na,
+  sane L -> 0 <= issued_at c now0 -> 0 <= now1 <= now2 -> now2 < two64 * NS / 4 ->
+  now1 < issued_at c now0 + two64 * NS / 4 -> now2 < ca_nb ->
+  effective_window_ca (ca_nb, ca_na) cfg L p req c now0 now1 now2 = Some (nb, na) ->
+  nb < ca_nb /\ nb <= now2.
+Proof. exact not_yet_valid_ca_starts_now. Qed.
+Print Assumptions c03_not_yet_valid_ca_starts_now.
+
+(* NOT the code: a generator that nests the validity inside the issuer's (NotBefore raised to the CA's
+   NotBefore, duration counted from there, end clamped to the CA's end).  With a CA certificate that
+   becomes valid in 40 minutes and a 24 h duration the certificate starts in the future and ends after
+   now2 + 24 h; with a CA that is valid and far from its end the variant is the code's window. *)
+Theorem c03_nested_validity_refuted : exists ca_nb ca_na now2 d,
+  0 < d /\ now2 + d < ca_na /\
+  let '(nb, na) := x509_window_nested ca_nb ca_na now2 d in now2 < nb /\ now2 + d < na.
+Proof. exact nested_validity_refuted. Qed.
+Print Assumptions c03_nested_validity_refuted.
+
+Theorem c03_nested_validity_agrees_when_ca_valid : forall ca_nb ca_na now2 d,
+  ca_nb <= now2 -> now2 + d <= ca_na -> x509_window_nested ca_nb ca_na now2 d = x509_window now2 d.
+Proof. exact nested_validity_agrees_when_ca_valid. Qed.
+Print Assumptions c03_nested_validity_agrees_when_ca_valid.
+
+(* the property predicate evaluated on observations (the model oracle of the case file) is sound for
+   the correspondence: an observation the model accepts under any CA validity neither starts after the
+   recorded clock nor ends beyond it plus the requested duration / the path's limit *)
+Theorem c03_obs_ok_not_future : forall ca cfg L p req c t0 t1 va vb,
+  window_obs_ok_ca ca cfg L p req c t0 t1 true va vb = true -> obs_starts_in_future t1 va = false.
+Proof. exact obs_ok_not_future. Qed.
+Print Assumptions c03_obs_ok_not_future.
+
+Theorem c03_obs_ok_not_beyond_limit : forall ca cfg L p req c t0 t1 va vb,
+  window_obs_ok_ca ca cfg L p req c t0 t1 true va vb = true ->
+  (t1 + 1 + Z.quot (obs_limit L p req) NS + 1 <? vb) = false.
+Proof. exact obs_ok_not_beyond_limit. Qed.
+Print Assumptions c03_obs_ok_not_beyond_limit.
+
+(* non-vacuity: a 1 h request under a CA that becomes valid in 40 minutes and expires in 10 is signed
+   from now for one hour *)
+Example c03_ca_example :
+  let L := {| maxc := 86400 * NS; maxrole := 45 * 86400 * NS; awslife := 86400 * NS |} in
+  effective_window_ca ((1790000000 + 2400) * NS, (1790000000 + 600) * NS) nil L CertgenX509 (Some (3600 * NS))
+    (Cookie (1790000000 * NS)) (1790000000 * NS) (1790000000 * NS) (1790000000 * NS)
+  = Some (1790000000 * NS, (1790000000 + 3600) * NS).
+Proof. vm_compute. reflexivity. Qed.
